@@ -570,7 +570,45 @@ def gen_cases(rng, n):
     return [gen_case(rng, "valid" if k % 2 else None) for k in range(n)]
 
 
+# ---------------------------------------------------------------------------------------------
+# the structural precondition of everything above: `>>` builds a forest (oracle only)
+# ---------------------------------------------------------------------------------------------
+def relink_cases():
+    return [{"type": "relink", "first": a, "second": b, "target": t}
+            for a in ("output", "adapter") for b in ("output", "adapter") for t in ("input", "adapter")]
+
+
+def run_relink(case):
+    prev = logging.root.manager.disable
+    logging.disable(logging.CRITICAL)
+    try:
+        mk = {"output": lambda n: fm.Output(n), "adapter": lambda n: fm.adapters.Scale(2.0).with_name(n)}
+        first, second = mk[case["first"]]("a"), mk[case["second"]]("b")
+        target = fm.Input("t") if case["target"] == "input" else fm.adapters.Scale(3.0).with_name("t")
+        first >> target
+        try:
+            second >> target
+            err = None
+        except Exception as e:  # noqa
+            err = type(e).__name__
+        return {"second_error": err, "source_is_first": target.source is first}
+    finally:
+        logging.disable(prev)
+
+
+def check_relink(res):
+    for c in relink_cases():
+        impl = run_relink(c)
+        res.case(c, True)
+        if impl["second_error"] is None or not impl["source_is_first"]:
+            res.fail(c, "an input or adapter takes one source: a second `>>` onto it is refused and the first link stays "
+                        "(the coupling graph is a forest, which the topology rules are stated over)", impl)
+            return True
+    return False
+
+
 def run(ctx, res):
+    check_relink(res)
     res.rule = RULE_TEXT
     res.assumptions = ["adapter kinds are those of finam.adapters plus two harness adapters (marker-only no-branch, "
                        "push-based without marker); no adapter needs pull (generated obligation no_adapter_needs_pull)"]
@@ -579,6 +617,8 @@ def run(ctx, res):
 
 
 def search(ctx, res, divergences, broken):
+    if check_relink(res):
+        return
     cases = [d["case"] for d in divergences if d.get("case")] + corpus() + gen_cases(ctx.rng, ctx.n(1500, 12000))
     for c in cases:
         impl = run_impl(c)
@@ -591,6 +631,9 @@ def search(ctx, res, divergences, broken):
 
 def _fails(case):
     try:
+        if case.get("type") == "relink":
+            impl = run_relink(case)
+            return ("relink", impl) if impl["second_error"] is None or not impl["source_is_first"] else None
         return oracle(case, run_impl(case))
     except Exception:  # noqa
         return None
@@ -601,6 +644,8 @@ def shrink(ctx, f):
     import copy
 
     case = f["case"]
+    if case.get("type") == "relink":
+        return f
 
     def variants(c):
         # remove an input leaf together with the input, splice out an adapter
@@ -643,6 +688,10 @@ def shrink(ctx, f):
 
 def replay(ctx, rp):
     case = rp.get("input") or (rp.get("diverging_case") or {}).get("case")
+    if case.get("type") == "relink":
+        impl = run_relink(case)
+        bad = impl["second_error"] is None or not impl["source_is_first"]
+        return {"fails": bad, "oracle": "a second `>>` onto one input is refused and the first link stays" if bad else None, "impl": impl}
     impl = run_impl(case)
     o = oracle(case, impl)
     m = common.lean_batch([model_request(case)])[0]
